@@ -57,6 +57,42 @@ ADDED = {
  "C17-6": "continued character literals with blanks after `&` and comment / blank lines between the halves (fscan extended per F2018 6.3.2.4)",
  "C18-5": "one case in 6 puts the dangling includes at the bottom of an include chain 40..100 levels deep",
  "C18-6": "database-level warnings are compared by content (every unknown flag, the compiler name, the file), with flag lists of about 250 characters",
+ # round 4 (first contact: 4 of 36)
+ "C01-7": "one random program in 7 includes itself once (first pass defines SELFPASS, nested pass takes the #else branch)",
+ "C01-8": "null directives (`#`, `  #`, `# /* c */`) and other directives that select nothing (#pragma, #line, #ident) sprinkled at every nesting level",
+ "C02-7": "identifiers with letters outside ASCII (`Z\u00c4HLER`, `gr\u00f6\u00dfe`, `\u00c9T\u00c9`, `\u03c0`) as macros, as leftover identifiers and under `defined`",
+ "C02-8": "bare names of function-like macros (`#if FL`, `FL + FL2 == 0`) next to object-like ones",
+ "C03-7": "`-D` definitions go through the real command-line parser, some preceded by `-U` of the same name and by unmodelled options",
+ "C03-8": "`, ## __VA_ARGS__` corpus entries (empty, absent, one and several variable arguments; via #if too); this exposed a genuine defect, repaired in 9e74938, and the patch was rebased",
+ "C04-7": "a header that is nothing but its include guard, included, guard #undef'ed and a mode macro defined, included again (twice)",
+ "C04-8": "a directory named like a header in a search directory that lacks the header file (every fourth random forest)",
+ "C05-7": "a member header with a C extension first reached through an #include in a free-form Fortran file (the only compile command)",
+ "C05-8": "file names cycle through all 18 extensions of the C family (was: always `.c`)",
+ "C06-7": "\u2014 (caught at first contact: platform name pool has mixed-case names since round 2)",
+ "C07-7": "class `clustering`: `report.clustering()` on tables with 2..8 platforms, every printed matrix cell and the label order compared",
+ "C07-8": "the position of the dashed 'Average' marker is read from the live matplotlib figure and compared with the reference divergence",
+ "C08-7": "class S: 2..5 nvcc commands in one run whose architecture options replace the default pass, both orders, expectation from ccmodel + gcc per pass",
+ "C08-8": "class S: one source compiled from 2..4 build directories with identical arguments (`-I.`, own config.h each)",
+ "C09-7": "\u2014 (caught at first contact: every path is queried from two working directories on one CodeBase object)",
+ "C09-8": "patterns with a leading `./` (manual lists and 8 % of generated name / anchored / star patterns); classifiers of the two pathspec findings made precise",
+ "C10-7": "one case in 3 compiles a file outside the root; every other case builds its configuration through database files and `load_database`",
+ "C10-8": "class `multi`: the code base given as two directories (library API) with path and anchored patterns; expectation = projection on the members of both",
+ "C11-7": "values containing `#` inside a word (`-DCOLOR=#fff`, `-Iinc#1`) in command strings rendered with backslash quoting",
+ "C11-8": "\u2014 (caught at first contact: `a,b` was already a search-directory name)",
+ "C12-7": "argv[0] that exists on disk as a symbolic link to a file named like a known compiler",
+ "C12-8": "`format` strings use `$value` and `${value}` alternately",
+ "C13-7": "second analysis of every database with all compiled files excluded by pattern: what they include keeps its attribution",
+ "C13-8": "headers compiled on their own with `-x c-header`; `-x c`, `-xc`, `-o out.o` among the surrounding options",
+ "C14-7": "order-dependent exclude patterns (negation after wildcard), half in `[codebase] exclude`, half as `-x`",
+ "C14-8": "every platform compiles one CUDA file with nvcc for its own architecture; platform table order is a perturbation",
+ "C15-7": "second names whose extension belongs to another language (`*.inc -> lang_fort.f90`, `*.f90 -> lang_cmt.c`), three per target",
+ "C15-8": "a link into a sibling of the root whose name starts with the root's name (`root-build/`)",
+ "C16-7": "the code base given as two directories with prefix-related names (`d0`, `d0x`)",
+ "C16-8": "wildcard + re-inclusion of one file that has a twin with another extension, in-process and through the command line",
+ "C17-7": "second halves of continued literals that start with `#`, `!`, `&` after the leading `&`",
+ "C17-8": "`#else ! comment`, `#endif ! comment`",
+ "C18-7": "a user configuration gives gcc an implicit option the analysis does not know (command-line runs)",
+ "C18-8": "unknown directive names that are prefixes, substrings or case variants of known ones (`#warn`, `#err`, `#e`, `#Line`, `#ERROR`, `#els`)",
 }
 rows = []
 for f in sorted(glob.glob(os.path.join(V, "seeded", "*", "meta.json"))):
